@@ -1034,6 +1034,10 @@ impl LowerHex for Number {
                 fmt::LowerHex::fmt(&num.unsigned_abs(), f)
             }
             Number::Float(num) => {
+                // the digit loop below never terminates on NaN and infinities
+                if !num.is_finite() {
+                    return fmt::Display::fmt(self, f);
+                }
                 if *num < 0_f64 {
                     write!(f, "-")?;
                 }
@@ -1067,6 +1071,10 @@ impl Octal for Number {
                 fmt::Octal::fmt(&num.unsigned_abs(), f)
             }
             Number::Float(num) => {
+                // the digit loop below never terminates on NaN and infinities
+                if !num.is_finite() {
+                    return fmt::Display::fmt(self, f);
+                }
                 if *num < 0_f64 {
                     write!(f, "-")?;
                 }
@@ -1100,6 +1108,10 @@ impl Binary for Number {
                 fmt::Binary::fmt(&num.unsigned_abs(), f)
             }
             Number::Float(num) => {
+                // the digit loop below never terminates on NaN and infinities
+                if !num.is_finite() {
+                    return fmt::Display::fmt(self, f);
+                }
                 if *num < 0_f64 {
                     write!(f, "-")?;
                 }
